@@ -39,6 +39,7 @@ pub struct Ctx {
     /// when set, only the case with this index string runs (replay of trace lines)
     pub only_case: Option<String>,
     pub case_no: u64,
+    pub budget_s: f64,
 }
 
 impl Ctx {
@@ -66,6 +67,13 @@ impl Ctx {
             scale: 1.0,
             only_case: None,
             case_no: 0,
+            budget_s,
+        }
+    }
+    /// Under Miri the budget is split into phases so that every part of a workload gets a share.
+    pub fn phase(&mut self, end_fraction: f64) {
+        if cfg!(miri) {
+            self.deadline = self.start + Duration::from_secs_f64(self.budget_s * end_fraction);
         }
     }
     pub fn quick(&self) -> bool {
